@@ -11,41 +11,56 @@ From ZV Require Import Common.Bytes Data.Consts Data.Base Data.MapEq Data.Map Da
   Data.RepColl Data.RepState Data.RefHS Data.RefCmd Data.RefK Data.RefL Data.MapZ Data.C08Proofs.
 Open Scope Z_scope.
 
-(* the unconditional statement: every command sequence with increasing timestamps *)
+(* the unconditional statement *)
 Definition C08_full : Prop := forall (compact : bool) (cs : list (Z * cmd)),
-  increasing 0 cs -> map_trace compact cs m_init = spec_trace cs s_init.
+  map_trace compact cs m_init = spec_trace cs s_init.
 
-(* (1) ALL FIVE TYPES: every command of the model — strings SET SETNX GETSET INCR INCRBY APPEND SETRANGE DEL, hashes
+(* (1) ALL FIVE TYPES, every command of the model — strings SET SETNX GETSET INCR INCRBY APPEND SETRANGE DEL, hashes
    HSET HSETNX HMSET HDEL HINCRBY HCLEAR, sets SADD SREM SPOP SCLEAR, sorted sets ZADD ZINCRBY ZREM ZREMRANGEBYRANK
    ZREMRANGEBYSCORE ZREMRANGEBYLEX ZCLEAR, lists LPUSH RPUSH LPOP RPOP LSET LTRIM LCLEAR, and every read (GET MGET
    GETRANGE STRLEN EXISTS; HGET HMGET HEXISTS HLEN HGETALL HKEYS HVALS HKEYEXIST; SCARD SISMEMBER SMEMBERS SRANDMEMBER
    SKEYEXIST; ZCARD ZSCORE ZRANGE ZREVRANGE ZRANGEBYSCORE ZREVRANGEBYSCORE ZRANGEBYLEX ZCOUNT ZLEXCOUNT ZRANK ZREVRANK
-   ZKEYEXIST; LLEN LINDEX LRANGE LKEYEXIST), malformed / failing commands included — gives the Spec reply, command by
-   command.  It is C08_full under the domain hypothesis [adm_run] (hence _partial):
-     * no LPUSH/RPUSH uses up the 2^61 sequence numbers on its side of a list (rockredis then answers errListSeq,
-       for which Redis has no counterpart);
-     * ZRANGE / ZREVRANGE / Z(REV)RANGEBYSCORE / ZRANGEBYLEX / ZREMRANGEBYRANK run on sorted sets of at most 5000
-       members (the documented bulk limit; above it the two models are not proved to fail on the same inputs). *)
-Theorem C08_all_commands_partial : forall (compact : bool) (cs : list (Z * cmd)),
-  increasing 0 cs -> adm_run compact cs m_init ->
+   ZKEYEXIST; LLEN LINDEX LRANGE LKEYEXIST), malformed / failing commands included: the Map model gives the Spec reply,
+   command by command.  Hypotheses, both explicit in the statement:
+     * [short_enough cs]: fewer than (2^61 - 1000) / 5000 (about 4.6e14) commands, so that no list can use up the
+       sequence numbers on one side (every command moves head or tail by at most MAX_BATCH_NUM; invariant LBS);
+     * [increasing 0 cs]: needed ONLY under wait_compact, and there only because the generation of a re-created
+       collection is its creation timestamp (see (1b) for local_deletion and C08_full_refuted for equal timestamps). *)
+Theorem C08_all_commands : forall (compact : bool) (cs : list (Z * cmd)),
+  increasing 0 cs -> short_enough cs ->
   map_trace compact cs m_init = spec_trace cs s_init.
 Proof. exact all_sequences_ref. Qed.
-Print Assumptions C08_all_commands_partial.
+Print Assumptions C08_all_commands.
+
+(* (1b) local_deletion: the timestamps are irrelevant *)
+Theorem C08_all_commands_local_any_timestamps : forall (cs : list (Z * cmd)),
+  short_enough cs -> map_trace false cs m_init = spec_trace cs s_init.
+Proof. exact local_all_sequences_ref. Qed.
+Print Assumptions C08_all_commands_local_any_timestamps.
+
+(* (1c) the unconditional statement is FALSE of the faithful model: under wait_compact a set cleared and re-created
+   at the timestamp of its creation enumerates the cleared member again (SADD k a; SCLEAR k; SADD k b; SMEMBERS k
+   all at ts 5).  Replayed on the Go code with one multi-request list; open finding of C10. *)
+Theorem C08_full_refuted : ~ C08_full.
+Proof. intros H. exact (equal_ts_breaks (H true equal_ts_cs)). Qed.
+Print Assumptions C08_full_refuted.
 
 (* (2) the resulting data: after such a sequence every stored hash / set / sorted-set record abstracts (as a finite
    map, current generation only) to the Spec value at the same key, every list record abstracts (values at the
    sequences head..tail) to the Spec list, and the string stores are equal *)
-Theorem C08_all_commands_data_partial : forall (compact : bool) (cs : list (Z * cmd)),
-  increasing 0 cs -> adm_run compact cs m_init ->
+Theorem C08_all_commands_data : forall (compact : bool) (cs : list (Z * cmd)),
+  increasing 0 cs -> short_enough cs ->
   simS compact (last_ts 0 cs) (map_run compact cs m_init) (spec_run cs s_init).
 Proof.
-  intros compact cs I Ad. exact (proj2 (trace_ref compact cs 0 m_init s_init (simS_init compact) (Z.le_refl 0) I Ad)).
+  intros compact cs I Sh.
+  exact (proj2 (trace_ref compact cs 0 0 m_init s_init (simS_init compact) (Z.le_refl 0) I (LBS_init) (Z.le_refl 0) Sh)).
 Qed.
-Print Assumptions C08_all_commands_data_partial.
+Print Assumptions C08_all_commands_data.
 
 (* (3) one step, from any related pair of states (incl. failing commands) *)
-Theorem C08_step : forall (compact : bool) (clock ts : Z) (c : cmd) (ms : mstate) (ss : sstate),
-  simS compact clock ms ss -> 0 <= clock < ts -> admissible ms c ->
+Theorem C08_step : forall (compact : bool) (clock ts : Z) (c : cmd) (bnd : Z) (ms : mstate) (ss : sstate),
+  simS compact clock ms ss -> 0 <= clock < ts ->
+  LBS bnd ms -> 0 <= bnd -> bnd + max_batch_num < seq_room ->
   snd (map_step compact ts c ms) = snd (spec_step c ss) /\
   simS compact ts (fst (map_step compact ts c ms)) (fst (spec_step c ss)).
 Proof. exact step_ref. Qed.
@@ -108,8 +123,8 @@ Definition ex_cs8 : list (Z * cmd) :=
     (12, CZ kk (ZCremrangebyrank 1 9223372036854775807));
     (13, QHgetall kk); (14, QSmembers kk); (15, QK (KQget kk)); (16, QL kk (LQrange 0 (-1)));
     (17, QZ kk (ZQrange false 0 (-1) true)) ].
-Example C08_ex_admissible : increasing 0 ex_cs8 /\ adm_run false ex_cs8 m_init.
-Proof. split; [cbn; repeat split; reflexivity|]. vm_compute. repeat split; try reflexivity; discriminate. Qed.
+Example C08_ex_admissible : increasing 0 ex_cs8 /\ short_enough ex_cs8.
+Proof. split; [cbn; repeat split; reflexivity|]. vm_compute. reflexivity. Qed.
 Example C08_ex_trace : spec_trace ex_cs8 s_init =
   [RNil; RInt 10; RInt 2; RInt 1; RInt 1; RInt 10; RInt 1; RInt 3; RNil; RInt 2; RFloat (SFin 1); RInt 1;
    RArr [RBulk ba; RBulk [49; 48]%N]; RArr [RBulk bb]; RBulk [49; 48]%N; RArr [RBulk bb; RBulk ba];
